@@ -22,7 +22,8 @@ use tokio::time::timeout as tokio_timeout;
 
 use super::parse_bool_option;
 
-const MAX_DEALER_SEND_BUFFER_PARTS: usize = 10240;
+// Leaves room for the final frame and the auto-inserted delimiter within `FrameBatch::MAX_FRAMES`.
+const MAX_DEALER_SEND_BUFFER_PARTS: usize = FrameBatch::MAX_FRAMES - 2;
 
 #[derive(Debug)]
 enum DealerSendTransaction {
@@ -388,6 +389,11 @@ impl ISocket for DealerSocket {
   async fn send_multipart(&self, user_frames: FrameBatch) -> Result<(), ZmqError> {
     if !self.core.is_running() {
       return Err(ZmqError::InvalidState("Socket is closing".into()));
+    }
+
+    // Auto-framing prepends an empty delimiter, which must still fit the batch.
+    if user_frames.len() >= FrameBatch::MAX_FRAMES && !self.framing.is_manual() {
+      return Err(FrameBatch::too_many_frames_error());
     }
 
     let sndtimeo_opt = { self.core.core_state.read().options.sndtimeo };
